@@ -49,6 +49,9 @@ ASSUMPTIONS = [
     "placement: the whole construction sits 0, 1e3, 1e5 or 2e6 radii from the origin in a general direction; tolerances "
     "gain FAR_K eps |coordinate| R / (shortest distance between given points), FAR_K = 4000 (measured worst case of the "
     "unchanged library 31, constant up to 1e8 R); written coordinates 2e-8 absolute",
+    "re-assembly histories (file cells): write, then either move all mesh vertices (optionally followed by backport()) "
+    "or clear() and move the operation in place, then write the same Mesh again; Revolve cell: assemble/write + clear() "
+    "between two usage steps; the judged file is always the last one",
     "Revolve cell: expected arcs are the circles about the axis LINE (origin, direction) through each face corner, "
     "mapped by the rigid motions / reflections of the usage steps composed with vf.refmodel; Operation.invert() does not "
     "change geometry; tolerance 2e-8 + 1e-7 r + 1e-12 size",
@@ -281,11 +284,19 @@ def check_file(case, ctx: Ctx) -> None:
     mesh.add(op)
     judge_file(mesh, arc, facts)
     if case.get("moves"):
-        # history: written once, every mesh vertex moves rigidly (as an optimizer or a user would move them), written again
         moved = MovedArc(arc, case["moves"])
-        must(lambda: moved.move(mesh.vertices, [e.data for e in mesh.edge_list.edges]), "moving the mesh vertices", facts)
-        judge_file(mesh, moved, dict(facts, after_move=True))
-        ctx.label("moved-and-rewritten")
+        how = case.get("rewrite", "move-vertices")
+        facts = dict(facts, after_move=True, rewrite=how)
+        if how == "clear-move-operation":
+            # the assembly is thrown away, the operation itself is moved in place, the same Mesh is written again
+            must(lambda: (mesh.clear(), moved.move([op], [])), "clear() and moving the operation", facts)
+        else:
+            # every mesh vertex moves rigidly (as an optimizer or a user would move them), edge data that holds points too
+            must(lambda: moved.move(mesh.vertices, [e.data for e in mesh.edge_list.edges]), "moving the mesh vertices", facts)
+            if how == "move-vertices-backport":
+                must(mesh.backport, "backport()", facts)
+        judge_file(mesh, moved, facts)
+        ctx.label("rewritten:" + how)
     label(case, arc, ctx)
 
 
@@ -376,7 +387,8 @@ def circle_case(draw, theta, **extra):
             "theta": draw(theta), "axis_scale": draw(st.sampled_from([1.0, 1.0, 3.0, 0.2])), "flip": draw(st.booleans())}
     for k, v in extra.items():
         case[k] = draw(v)
-    case["moves"] = draw(st.lists(_move, min_size=0, max_size=2))
+    case["moves"] = [draw(_move) for _ in range([0, 1, 1, 2][draw(st.integers(0, 3))])]
+    case["rewrite"] = draw(st.sampled_from(["move-vertices", "clear-move-operation", "move-vertices-backport"]))
     case["far"] = draw(st.sampled_from([0.0, 0.0, 1e3, 1e5, 2e6]))
     case["far_dir"] = draw(_general)
     return case
@@ -479,10 +491,25 @@ def check_revolve(case, ctx: Ctx) -> None:
         return S * np.array(v, float)
 
     M = np.eye(4)
+    mesh = None
     try:
         op = cb.Revolve(cb.Face(pts), theta, k * case["axis_scale"], o)
-        for st_ in case["usage"]:
+        for ax in range(3):
+            op.chop(ax, count=1)
+        for n_done, st_ in enumerate(case["usage"]):
+            if case.get("reassemble_at") == n_done:
+                # history: the operation is already in a Mesh that was written (or only assembled) and cleared;
+                # the remaining steps act on the operation in place and the same Mesh is written at the end
+                mesh = cb.Mesh()
+                mesh.add(op)
+                if case.get("first_pass") == "write":
+                    lt.write_text(mesh)
+                else:
+                    mesh.assemble()
+                mesh.clear()
             kind = st_[0]
+            if kind == "copy-rotate" and mesh is not None:
+                kind = "rotate"  # a copy would not be the operation the Mesh holds
             if kind == "translate":
                 op.translate(vec(st_[1]))
                 M = m_translate(vec(st_[1])) @ M
@@ -511,10 +538,11 @@ def check_revolve(case, ctx: Ctx) -> None:
                 op.transform(trs)
     except Exception as ex:
         raise Violation("usage-raised", f"{type(ex).__name__}: {ex}", **facts) from None
-    for ax in range(3):
-        op.chop(ax, count=1)
-    mesh = cb.Mesh()
-    mesh.add(op)
+    if mesh is None:
+        mesh = cb.Mesh()
+        mesh.add(op)
+    else:
+        facts["reassembled_after_step"] = case["reassemble_at"]
     try:
         text, _ = lt.write_text(mesh)
         bmd = lt.parse(text)
@@ -549,6 +577,8 @@ def check_revolve(case, ctx: Ctx) -> None:
     ctx.nt(len(case["usage"]) >= 1 and float(np.max(np.abs(k))) < math.cos(math.radians(5)))
     ctx.label("reflex" if abs(theta) > math.pi else "non-reflex", "negative" if theta < 0 else "positive")
     ctx.label("steps=%d" % len(case["usage"]))
+    if "reassembled_after_step" in facts:
+        ctx.label("reassembled-then-%d-more-steps" % (len(case["usage"]) - case["reassemble_at"]))
     for s_ in case["usage"]:
         ctx.label("step:" + s_[0])
 
@@ -576,6 +606,9 @@ def revolve_case(draw):
             "jitter": [[draw(st.floats(-1, 1)), draw(st.floats(-1, 1))] for _ in range(4)]}
     n = [0, 1, 1, 1, 2, 2, 3, 3][draw(st.integers(0, 7))]
     case["usage"] = [draw(_usage_step) for _ in range(n)]
+    # optionally the operation sits in a Mesh that is assembled / written and cleared before step `reassemble_at`
+    case["reassemble_at"] = draw(st.sampled_from([None, *range(n)])) if n else None
+    case["first_pass"] = draw(st.sampled_from(["write", "assemble"]))
     # keep |(a - p) x (b - p)| of the smallest side arc >= 1e-5 (the library's absolute collinearity tolerance is 1e-7,
     # known finding C08-N2) by raising the size
     th = abs(case["theta"])
